@@ -192,6 +192,81 @@ def handle : Handler := fun st op j =>
     let m ← getInt j "m"
     let table ← getNat j "table"   -- 0 = four squares, else number of table entries (limit+1)
     pure (st, if rangeProvable sign factor bound m table then "ok accept proves" else "err")
+  | "verifyDnr" => some do
+    -- verdict plus the accumulator index/time a verifier reads from the accepted proof
+    let kid ← getStr j "key"
+    let pk ← st.key kid
+    let ctx ← getInt j "context"
+    let nonce ← getInt j "nonce"
+    let issig ← getBool j "issig"
+    match Decode.proofD (← field j "proof") with
+    | .error _ => pure (st, "decode-error")
+    | .ok p =>
+      let o := Decode.sigOracle (views j)
+      let cs := p.revChoices
+      let run := fun (a b : Int) => (do
+        match ← (p.challengeContribution o kid pk a).run with
+        | none => pure "reject"
+        | some (contrib, p') =>
+          let (ok, acc) ← p'.verifyWithChallenge o kid pk b (createChallenge ctx nonce contrib issig)
+          pure (if ok then (match acc with
+            | some ac => s!"accept:{ac.index}:{ac.time}"
+            | none => "accept:none") else "reject") : GoM String)
+      let vs := cs.flatMap fun a => cs.map fun b => match run a b with | .ok s => s | .error _ => "panic"
+      pure (st, showVerdicts vs)
+  | "construct" => some do
+    let kid ← getStr j "key"
+    let pk ← st.key kid
+    let bj ← field j "builder"
+    let mUser ← (← asArr (← field bj "mUser")).mapM fun p => do
+      match ← asArr p with
+      | [k, v] => pure (← asInt k, ← asInt v)
+      | _ => throw "pair"
+    let secret ← getInt bj "secret"
+    let vPrime ← getInt bj "vPrime"
+    let ksP ← getOptInt bj "keyshareP"
+    let u ← (match userCommitment pk secret vPrime mUser ksP with
+      | .ok u => pure u
+      | .error _ => throw "userCommitment" : R Int)
+    let bctx ← getInt bj "context"
+    let bn2 ← getInt bj "nonce2"
+    let b : CredBuilder := {
+      secret := secret, vPrime := vPrime, vPrimeCommit := 0, mUser := mUser, mUserCommit := [],
+      u := u, keyshareP := ksP, context := bctx, nonce2 := bn2 }
+    let m ← field j "msg"
+    -- the message tree is decoded like encoding/json does
+    let dec : Decode.D (Option ProofS × Option CLSignature × List (Int × Option Int) × Option MsgWitness) := do
+      let ps ← (do match ← Decode.structObj (Decode.optField m "proof") with
+        | none => pure none
+        | some o =>
+          match ← Decode.big (Decode.optField o "c"), ← Decode.big (Decode.optField o "e_response") with
+          | some c, some e => pure (some ({ c := c, eResponse := e } : ProofS))
+          | _, _ => pure none : Decode.D (Option ProofS))
+      let sg ← (do match ← Decode.structObj (Decode.optField m "signature") with
+        | none => pure none
+        | some o =>
+          match ← Decode.big (Decode.optField o "A"), ← Decode.big (Decode.optField o "e"), ← Decode.big (Decode.optField o "v") with
+          | some a, some e, some v => pure (some ({ a := a, e := e, v := v, keyshareP := ← Decode.big (Decode.optField o "KeyshareP") } : CLSignature))
+          | _, _, _ => pure none : Decode.D (Option CLSignature))
+      let mi ← Decode.intMap (Decode.optField m "m_issuer")
+      let w ← (do match ← Decode.structObj (Decode.optField m "nonrev") with
+        | none => pure none
+        | some o =>
+          let sa ← Decode.sacc (Decode.optField o "sacc")
+          let orc := Decode.sigOracle (views j)
+          let nu := sa.bind fun s => (s.unmarshalVerify orc kid pk).bind (·.nu)
+          pure (some ({ u := ← Decode.big (Decode.optField o "u"), e := ← Decode.big (Decode.optField o "e"), nu := nu, hasSacc := sa.isSome } : MsgWitness))
+        : Decode.D (Option MsgWitness))
+      pure (ps, sg, mi, w)
+    match dec with
+    | .error _ => pure (st, "decode-error")
+    | .ok (ps, sg, mi, w) =>
+      let attrs ← getOptInts j "attributes"
+      match b.construct pk ps sg mi attrs w with
+      | .error _ => pure (st, "panic")
+      | .ok (.rejected _) => pure (st, "rejected")
+      | .ok (.credential sig vals) =>
+        pure (st, "ok:" ++ ",".intercalate (vals.map hexOfInt) ++ s!" v={hexOfInt sig.v}")
   | "verifyU" => some do
     let pk ← st.key (← getStr j "key")
     let ctx ← getInt j "context"
